@@ -133,24 +133,23 @@ def postingRanges (p : Posting) : List Rng :=
   [p.range, p.account.range] ++
   (match p.amount with | some a => amountRanges a | none => []) ++
   (match p.cost with | some c => c.range :: amountRanges c.amount | none => []) ++
-  (match p.assertion with | some b => b.range :: amountRanges b.amount | none => []) ++
-  p.tags.map (·.range)
+  (match p.assertion with | some b => b.range :: amountRanges b.amount | none => [])
 
 def txRanges (tx : Transaction) : List Rng :=
   [tx.range, tx.date.range] ++
   (match tx.date2 with | some d => [d.range] | none => []) ++
-  tx.tags.map (·.range) ++
-  tx.comments.flatMap (fun c => c.tags.map (·.range)) ++
   tx.postings.flatMap postingRanges
 
 def directiveRanges : Directive → List Rng
-  | .account a tags _ _ r => [r, a.range] ++ tags.map (·.range)
+  | .account a _ _ _ r => [r, a.range]
   | .commodity c _ _ _ r => [r, c.range]
   | .price d c p r => [r, d.range, c.range] ++ amountRanges p
   | .year _ r => [r]
   | .defaultCommodity _ _ r => [r]
 
-/-- Every position range stored in the tree. -/
+/-- Every position range the parser copies from token positions into the tree.  (Tag ranges
+    are not among them: parseTags computes them by adding offsets inside the comment text to
+    the comment's column, see `tag_byte_offsets_counterexample`.) -/
 def nodeRanges (j : Journal) : List Rng :=
   j.transactions.flatMap txRanges ++ j.directives.flatMap directiveRanges ++ j.includes.map (·.range)
 
